@@ -139,15 +139,19 @@ CLAIMED = {
              "string buffers stored through a 'str' dtype) are reported as KNOWN-FINDING and any other difference is a violation.",
         design="§7 C18", technique="Lean 4 proof (fold = filter; range arithmetic) + cell-by-cell correspondence on real datasets"),
     "C16": dict(
-        text="PARTIAL. Proved: every element search the loader is built from commutes with comment removal (elems_strip, "
-             "findAll_strip, findFirst_strip: a comment between any two elements changes no search result) and is independent of "
-             "the namespace convention (matches_setNs, findAll_spelling: the same elements are found whether the document is "
-             "rendered with a prefix of any name, a default namespace or no namespace); the loader-state model shows the result "
-             "of a load does not depend on the class-level state left by any sequence of earlier loads (history_independent, "
-             "after_any_sequence). The lifting of the search lemmas through all from_xml functions is not a theorem; it is "
-             "carried by the correspondence: each document in 5 spellings x comments x whitespace, loaded in one process after "
-             "0..5 prior loads (other renderings and malformed inputs), with the oracle demanding one definition for all renderings.",
-        design="§7 C16", technique="Lean 4 proof (search-level commutation lemmas, state model) + correspondence check"),
+        text="Proved for the whole loader model: load_ignores_comments (loadXtce on a document and on the document with every "
+             "comment removed give the same definition or the same error) and load_ignores_namespace_convention (the same "
+             "abstract document with all elements in namespace u, loaded expecting u, and in namespace v, loaded expecting v "
+             "- prefix of any name, default namespace, no namespace - loads to the same definition up to the recorded "
+             "prefix/nsmap). Both are instances (stripRendering, nsRendering) of one theorem chain in Lemmas/Render.lean: every "
+             "from_xml function (criteria, calibrators, encodings, parameter types, parameters, containers with their "
+             "recursion, the three sets, the document) is invariant under any tree map under which the element searches "
+             "commute. history_independent / after_any_sequence: the result of a load does not depend on the class-level state "
+             "left by any sequence of earlier loads. PARTIAL only in what the tree model leaves out (lxml's text/tail handling: "
+             "whitespace, comments inside character data), which the correspondence covers: each document in 5 spellings x "
+             "comments x whitespace, with time types, loaded in one process after 0..5 prior loads (other renderings and "
+             "malformed inputs), the oracle demanding one definition for all renderings.",
+        design="§7 C16", technique="Lean 4 proof (loader invariant under renderings; comment removal and namespace change are renderings; state model) + correspondence check"),
     "C17": dict(
         text="PARTIAL. Proved about the mirror of the loader: types_unique / params_unique (a successful load has pairwise "
              "distinct type and parameter names), duplicate_type_rejected / duplicate_parameter_rejected, "
